@@ -134,6 +134,15 @@ InCone(v, u, tol) ==
   IF Norm2(v) = 0 THEN TRUE            \* coincident points count in every direction
   ELSE IF tol = 1 THEN a > 0 /\ 2 * a * a > n * n
   ELSE a > 0 \/ 2 * a * a < n * n
+(* A pair of COINCIDENT points has no direction.  The kernel counts it in every   *)
+(* direction (separate_dirs = FALSE); whether the caller counts it in every      *)
+(* direction or only in the first one is left open by the documentation: the     *)
+(* spec reports the contribution of these pairs per bin (VarioCoincident) and    *)
+(* the caller may omit it from the directions after the first.                   *)
+VarioCoincident(i) ==
+  [e \in 1..(Len(i.edges) - 1) |->
+     LET S == {ab \in PairsInBin(i, e) : Norm2(Diff(i.pos[ab[1]], i.pos[ab[2]])) = 0}
+     IN <<SumSet(S, i), Cardinality(S) * Len(i.f)>>]
 VarioDirectional(i) ==
   [u \in 1..Len(i.dirs) |->
      [e \in 1..(Len(i.edges) - 1) |->
@@ -170,7 +179,7 @@ Result(i) ==
     [] i.kind = "krige"      -> [field |-> KrigeField(i), error |-> KrigeError(i)]
     [] i.kind = "vario_u"    -> [bins |-> VarioUnstructured(i)]
     [] i.kind = "vario_s"    -> [bins |-> VarioStructured(i)]
-    [] i.kind = "vario_d"    -> [dirs |-> VarioDirectional(i)]
+    [] i.kind = "vario_d"    -> [dirs |-> VarioDirectional(i), coincident |-> VarioCoincident(i)]
     [] i.kind = "vf_hist"    -> [gens |-> HistGens(i.init, i.ops)]
     [] i.kind = "projector"  -> [p |-> Projector(i)]
 
